@@ -1,10 +1,11 @@
 #!/bin/bash
-# Re-run the quick check of every seeded change's property with the checks as they are now.
+# Re-run the quick check that is recorded as catching each seeded change, with the checks as they are now.
 cd /verif
 out=seeded/RESULTS-final.txt
 : > $out
-for d in $(ls -d seeded/s* | sort -t s -k2 -n); do
+for d in $(ls -d seeded/s* | sort -t s -k3 -n); do
   id=$(basename $d)
+  [ -f $d/meta.json ] || continue
   if grep -q '"retired"' $d/meta.json; then echo "$id retired (see meta.json)" >> $out; continue; fi
   prop=$(python3 -c "import json;m=json.load(open('$d/meta.json'));db=m.get('detected_by') or {};print(db.get('check',m['property']).split(',')[0].strip())")
   r=$(WALL=${WALL:-14} tools/try_mutant.sh /verif/$d/patch.diff $prop 2>&1 | tail -1)
